@@ -115,7 +115,7 @@ CLAIMS = {
              "command, middle parameters separated by blank runs of any kind and length, optional ' :'-introduced trailing text of any content, trailing blanks - is tokenised to exactly its parts "
              "(C13_grammar_complete); serialising a message with a source and tokenising the result gives back exactly source, command and parameters (C13_serialise_parse, C13_relay_reparses); a verb outside the table is answered 421 "
              "with the upper-cased name, a known verb with fewer parameters than its arity 461, and with enough parameters the line is executed as exactly that verb or answered with a "
-             "parameter-specific error - never 421/461 (all 41 verbs, every arity); an unparsable line changes nothing and an empty line is ignored; every emitted line is one CRLF-terminated message: what the encoder writes for any list of LF-free lines is framed by the same codec into exactly those lines, in order, nothing left over (C13_encode_decode; bytes not terminated by LF are never handed to the command layer, whatever they say: C13_unterminated_not_executed; Frame.encode is run against IRCLinesCodec::encode on every check, incl. lines beyond 2000 bytes with multi-byte characters across the limit); the framing model (split at LF, strip CR, 2000-byte limit) yields the same "
+             "parameter-specific error - never 421/461 (all 41 verbs, every arity); an unparsable line changes nothing and an empty line is ignored; every emitted line is one CRLF-terminated message: what the encoder writes for any list of LF-free lines is framed by the same codec into exactly those lines, in order, nothing left over (C13_encode_decode; bytes not terminated by LF are never handed to the command layer, whatever they say: C13_unterminated_not_executed; the line the relay serialiser writes for a received message and an LF-free source contains no LF, every character of the message being a character of the received line: C13_relayed_line_has_no_lf; Frame.encode is run against IRCLinesCodec::encode on every check, incl. lines beyond 2000 bytes with multi-byte characters across the limit); the framing model (split at LF, strip CR, 2000-byte limit) yields the same "
              "frames however the byte stream is cut into segments, an over-long line is reported as such, never executed, and a received line never contains LF (C13_segmentation_invariant, C13_overlong_not_executed, C13_received_lines_have_no_lf). the format!-built relays PART, KICK, PRIVMSG/NOTICE re-parse to verb, target and text for every text (C13_relay_part, C13_relay_kick, C13_relay_msg). CRLF termination "
              "and the 301 relay are decided per run on the real server (L2); the framing model is the one the extracted program runs against the real LinesCodec.",
         design_ref="5 (C13)",
